@@ -225,6 +225,10 @@ udp_pipe_close(void *arg)
 	udp_ep   *ep = p->ep;
 	nni_aio  *aio;
 
+	if (ep == NULL) {
+		// Pipe creation failed before the pipe was started.
+		return;
+	}
 	nni_mtx_lock(&ep->mtx);
 	udp_remove_pipe(p);
 	udp_send_disc(ep, p, DISC_CLOSED);
@@ -241,6 +245,9 @@ udp_pipe_stop(void *arg)
 	udp_pipe *p  = arg;
 	udp_ep   *ep = p->ep;
 
+	if (ep == NULL) {
+		return;
+	}
 	udp_pipe_close(arg);
 
 	nni_mtx_lock(&ep->mtx);
